@@ -185,7 +185,7 @@ theorem keys_nodup_filter {l : List Call} (h : (l.map callKey).Nodup) (q : Call 
 /-- **No package is reported twice unless two `Extract` results contain it**: in a benign whole-tree scan of
 a tree with distinct sibling names, if no single `Extract` result lists a package twice then neither does
 the scan. (With several roots, or a path requested twice, the same relative path is legitimately extracted
-once per root / request: `C08_roots` says the result is the concatenation.) -/
+once per root / request: `C08_roots_benign` says the result is the concatenation.) -/
 theorem run_pkgs_nodup (c : Cfg) (hb : Benign c) (ho : GiOK c) (hp : c.paths = []) (root : Node) (f : Faults)
     (h : DistinctNames root) (hx : ∀ e p, (c.extract e p).pkgs.Nodup) : (run c [(root, f)]).pkgs.Nodup := by
   have hk := run_keys_nodup c hb ho hp root f h
